@@ -132,7 +132,10 @@ class GotranODECodePrinter(BaseGotranODECodePrinter):
             d[i.components].append(i)
 
         text = ""
-        for components, intermediates in d.items():
+        # Assignments without a component have no header in the file, and lines
+        # that follow an ``expressions("name")`` header belong to that component:
+        # they have to be written before any named block
+        for components, intermediates in sorted(d.items(), key=lambda item: item[0] != ("",)):
             text += start_odeblock("expressions", names=components, is_expression=True) + "\n"
             text += "\n".join([print_assignment(i, doprint=self.doprint) for i in intermediates])
             text += "\n\n"
